@@ -14,7 +14,7 @@ pub struct World { pub sw_locked: bool, pub snapshots_opened_unlocked: nat, pub 
 pub struct MutexGuard<'a, T> { pub id: Ghost<int>, pub ph: core::marker::PhantomData<&'a T> }
 pub struct LockResult<'a> { pub g: MutexGuard<'a, ()> }
 impl<'a> LockResult<'a> { pub fn expect(self, m: &str) -> (r: MutexGuard<'a, ()>) ensures r == self.g { self.g } }   // a poisoned mutex panics: not modelled
-pub struct SwMutex { pub dummy: u8 }
+pub struct SwMutex { pub id: Ghost<int> }   // id: WHICH mutex (two handles exclude each other only through the same one)
 impl SwMutex {
     // std::sync::Mutex::lock: blocks until no other guard exists (mutual exclusion is the mutex's own contract)
     #[verifier::external_body]
@@ -39,6 +39,15 @@ pub struct DbConfig { pub manual_journal_persist: bool }
 pub struct Database { pub supervisor: Supervisor, pub config: DbConfig }
 impl Clone for Database { #[verifier::external_body] fn clone(&self) -> (r: Database) { unimplemented!() } }
 pub struct Arc<T> { pub t: T }
+// Arc::clone shares the pointee; Arc::default() allocates a NEW one (nothing is known about which)
+impl Clone for Arc<SwMutex> { #[verifier::external_body] fn clone(&self) -> (r: Self) ensures r.t.id == self.t.id { unimplemented!() } }
+impl Default for Arc<SwMutex> { #[verifier::external_body] fn default() -> (r: Self) { unimplemented!() } }
+pub struct Keyspace { pub id: Ghost<int> }
+pub struct KeyspaceCreateOptions { pub dummy: u8 }
+impl Database {
+    // Database::keyspace (U-META / U-METAKS): create or open
+    #[verifier::external_body] pub fn keyspace<F: FnOnce() -> KeyspaceCreateOptions>(&self, name: &str, create_options: F) -> (r: Result<Keyspace, Error>) { unimplemented!() }
+}
 impl<T> std::ops::Deref for Arc<T> { type Target = T; fn deref(&self) -> (r: &T) ensures *r == self.t { &self.t } }
 #[derive(Clone, Copy, PartialEq, Eq)]
 pub enum PersistMode { Buffer, SyncData, SyncAll }
@@ -49,7 +58,9 @@ impl BaseTransaction {
     #[verifier::external_body] pub fn durability(self, mode: Option<PersistMode>) -> (r: BaseTransaction) ensures r.nonce == self.nonce, r.durability == mode { unimplemented!() }
 }
 pub struct TxDatabase { pub inner: Database, pub single_writer_lock: Arc<SwMutex> }
-impl Clone for TxDatabase { #[verifier::external_body] fn clone(&self) -> (r: TxDatabase) { unimplemented!() } }
+// #[derive(Clone)] of TxDatabase written out (ASSUMED to be what the derive expands to: field-wise clone)
+impl Clone for TxDatabase { fn clone(&self) -> (r: TxDatabase) ensures r.single_writer_lock.t.id == self.single_writer_lock.t.id { TxDatabase { inner: self.inner.clone(), single_writer_lock: self.single_writer_lock.clone() } } }
+//@extract-type src/tx/single_writer/keyspace.rs :: SingleWriterTxKeyspace
 
 //@extract-type src/tx/single_writer/write_tx.rs :: WriteTransaction
 
@@ -73,6 +84,12 @@ impl Clone for TxDatabase { #[verifier::external_body] fn clone(&self) -> (r: Tx
         final(w).opened == old(w).opened + 1,
         // journal persist: Buffer unless the database is in manual-persist mode (C02/C09 premise for transactions)
         r.inner.durability == (if self.inner.config.manual_journal_persist { None } else { Some(PersistMode::Buffer) }), // [C08:commit-durability-follows-the-database-mode]
+//@end
+
+// every keyspace handle of a transactional database serializes its writers through the DATABASE's mutex, not one of its own
+//@extract src/tx/single_writer/mod.rs :: TxDatabase :: keyspace props=C08
+//@contract
+    ensures r matches Ok(ks) ==> ks.db.single_writer_lock.t.id == self.single_writer_lock.t.id, // [C08:keyspace-handle-shares-the-single-writer-lock-of-its-database]
 //@end
 
 //@canary
